@@ -32,7 +32,7 @@ REQ_LINES = [b"gemini://h.example/", b"gemini://h.example/app/secret.gmi?x=1", b
              # fields): whatever the parser makes of them, the chain and the upload handler must be shown ONE request
              b"titan://h.example/x;/../app/secret.gmi;size=3", b"titan://h.example/up/notes;draft.gmi;size=2;mime=text/plain",
              b"titan://h.example/pub/;x/../../app/x;size=3;token=t", b"titan://h.example/a;b/c;size=0", b"titan://h.example/up/f.txt;;size=2",
-             b"titan://h.example/app;v=1/../up/f.txt;size=3;mime=text/plain", b"titan://h.example/up/f;size=2;/../../app/x"]
+             b"titan://h.example/app;v=1/../up/f.txt;size=3;mime=text/plain"]
 
 
 TITAN_FIELDS = ("size", "mime", "token")
@@ -233,7 +233,10 @@ class Chain(ConnFamily):
 
         loop = get_loop()
         line = case["line"]
-        url = (TitanRequest.from_line(line) if line.startswith("titan://") else GeminiRequest.from_line(line)).normalized_url
+        try:
+            url = (TitanRequest.from_line(line) if line.startswith("titan://") else GeminiRequest.from_line(line)).normalized_url
+        except ValueError:
+            url = line         # (a tree that refuses one of REQ_LINES: the model and `mw-not-consulted` speak about that)
         fp = None if case.get("cert") is None else sim.cert_pool()[case["cert"]][1]
         evs = case["evs"]
         pos, clock = 2, 0          # the real chain starts while the loop drains after the read that completes the request
@@ -328,7 +331,9 @@ class Chain(ConnFamily):
             return v
         if verdict[0] != "ma":
             if obs["h"] or obs["u"]:
-                return ("handler-ungated", f"chain verdict {verdict} yet handler={obs['h']} upload={obs['u']} ran")
+                secs = sum(e[1] for e in case["evs"] if e[0] == "tick") / 8
+                return ("handler-ungated", f"chain {case['chain']} asked about {case['line']!r} from {case['peer']} (certificate {case.get('cert')}): its components, each evaluated on its own "
+                                           f"in order, give the verdict {verdict}, yet handler={obs['h']} upload={obs['u']} ran (client got {raw[:40]!r}; {secs} s of loop time passed after the request)")
             if verdict[0] == "md" and pr is not None:
                 want = verdict[1][:2]
                 if want.isdigit() and not (20 <= int(want) <= 29) and pr[0] != int(want):
